@@ -244,8 +244,10 @@ func ComputeStartStateWithStride(builder *Builder, n *nfa.NFA, config StartConfi
 
 	// Compute state key for caching
 	// The key now includes word context - states with same NFA states but
-	// different isFromWord are DIFFERENT DFA states!
-	key := ComputeStateKeyWithWord(startStateSet, isFromWord)
+	// different isFromWord are DIFFERENT DFA states! It is order-sensitive like
+	// the keys computed by determinize, so that a start state and a state reached
+	// by a transition share a cache entry only if their thread priorities agree.
+	key := ComputeOrderedStateKey(startStateSet, isFromWord, isMatch)
 
 	// Create DFA state with word context and stride (ID will be assigned by caller)
 	state := NewStateWithStride(InvalidState, startStateSet, isMatch, isFromWord, stride)
